@@ -337,7 +337,7 @@ func genTimeout(r *rand.Rand) int64 {
 
 func cfgIn(r *rand.Rand, events uint32, err string) CfgIn {
 	return CfgIn{Config: rstr(r, 20), RName: rstr(r, 8), RVer: "v" + rstr(r, 5),
-		RegTo: genTimeout(r), ReqTo: genTimeout(r), Events: events, Err: err}
+		RegTo: genTimeout(r), ReqTo: genTimeout(r), Events: events, Err: err, CancelCtx: r.Intn(3) == 0}
 }
 
 // sessionsFor produces the cases for one set of implemented events.
